@@ -497,6 +497,12 @@ class Concatenator(Group):  # pylint: disable=too-many-public-methods
         elif isinstance(entity, ConcatenatedObject):
             # First remove the children
             entity.remove_children(entity.children.copy())
+
+            # Then the rows of the object's own arrays
+            for field in ["surveys", "trace", "property_groups"]:
+                if hasattr(entity, f"_{field}"):
+                    self.update_array_attribute(entity, field, remove=True)
+
             object_ids = self.concatenated_object_ids
 
             if object_ids is not None:
